@@ -62,7 +62,7 @@ func (i *Ignore) load(rootGoitPath string) error {
 func (i *Ignore) IsIncluded(path string, index *Index) bool {
 	target := path
 	info, err := os.Stat(path)
-	if os.IsNotExist(err) {
+	if err != nil {
 		if len(index.GetEntriesByDirectory(path)) > 0 {
 			target = fmt.Sprintf("%s/", path)
 		}
